@@ -5,6 +5,8 @@ def seq_scenario(rng, outage=False):
     iv = rng.choice([1, 1, 2])
     ops = []
     n = 0
+    if iv == 2:
+        ops.append(rng.choice(['P0', 'P1']))      # start in the first or in the second half of a 2 s interval
     if rng.random() < 0.4:
         ops.append('pre')
     ops.append('S')
